@@ -95,8 +95,15 @@ KNOWN_UNDECIDED = {
     "C17": {"set4_8": "flatten - single vmap - unflatten of the [S, A, E] successor array is outside the kernel IR's reshape vocabulary",
             "r2set4_2": "one broadcast scatter per event (index arrays [1, A] x [S, 1] x [S, A]) instead of the event x action double loop"},
     "C02": {"r2set2_3": "history rows precomputed as a Python list and walked with enumerate(zip(rows, rows[1:])): no loop summary"},
-    "C03": {"r2set2_3": "same"},
-    "C07": {"r2set2_3": "same"},
+    "C03": {"r2set2_3": "same", "r4set4_2": "padding mask moved into a new BatchProcessor.padding_mask() method: the BatchProcessor is summarised, not interpreted"},
+    "C06": {"r4set4_2": "same"},
+    "C08": {"r4set4_2": "same", "r4set1_2": "policy-evaluation loop moved into a collaborator class (_IterativePolicyEvaluation.run)"},
+    "C05": {"r4set1_2": "same"},
+    "C07": {"r2set2_3": "same", "r4set2_2": "history buffer moved behind properties into a collaborator object (_ValueHistory)"},
+    "C09": {"r4set2_2": "same", "r4set1_4": "solver_state / restore generated from class-level field declarations (_info_fields) with setattr / getattr over a tuple attribute",
+            "r4set2_3": "same idea (_info_attributes)"},
+    "C10": {"r4set1_4": "same", "r4set2_3": "same"},
+    "C13": {"r4set5_2": "pu / pz tabulation moved into module functions of a new module: the triaged call sites (and the recorded finding D5) are keyed by class and method"},
     "C20": {"r4set3_1": "verbosity tables replaced by one IntEnum (`_Verbosity(v).name`, `_Verbosity.__members__.get(name)`): no literal table to read"},
 }
 
